@@ -204,6 +204,7 @@ Clauses1(e) ==
                                              ELSE LET nr == UnpairedNuRange(sa, sb) IN
                                                   IF nr.floor < 1 \/ nr.floor + 1 > DenseNu THEN {"C04.unpaired_nu_outside_table"}
                                                   ELSE {"C04.unpaired_bound_evaluated"}
+                                                       \cup (IF sa.n + sb.n > 100000 THEN {"C04.unpaired_small_dof_large_population"} ELSE {})
                                                        \cup (IF nr.exact THEN {"C04.unpaired_integer_nu"} ELSE {"C04.unpaired_bracketed_nu"}))
                                        \cup (IF "fam" \in DOMAIN e THEN {"C04.unpaired_family_" \o ToString(e.fam)} ELSE {})
                                     ELSE {"C04.domain"})
